@@ -20,8 +20,16 @@ func Exec(cursor store.Cursor, expr *grammar.Grammar, settings ...ContextApply) 
 		i(&contextSettings)
 	}
 
+	// Absolute location paths start at the root of the tree the cursor
+	// belongs to, also when the query is executed from another node.
+	root := cursor
+
+	for root.Pos() != 0 {
+		root = root.Parent()
+	}
+
 	context := &exprContext{
-		root:             cursor,
+		root:             root,
 		result:           Result(NodeSet{cursor}),
 		contextPosition:  0,
 		contextSize:      1,
